@@ -113,6 +113,52 @@ func drivePoint(c *ctx) {
 			c.E("pt.Equal", "p", ptRaw(Q), "q", ptRaw(P), "out", int(Q.Equal(P)), "twin", 1)
 		}
 	}
+	// the formulas multiply intermediate values by small constants (3b = 21, 3, 2 ...): operands are chosen so that THE VALUE BEING
+	// MULTIPLIED — Z1*Z2, X1*Z2 + X2*Z1, Y1*Z2 + Y2*Z1, Z^2 ... — sits, in its internal form, just below a multiple of 2^256 / k
+	// (the window a specialised small-constant multiply has to carry through).  Z1*Z2 = w with Z2 = 1; x1 + x2 = w with both affine.
+	{
+		ws := smallMultipleWindows([]int64{21, 3, 2, 4, 8})
+		for wi, w := range ws {
+			if !c.thorough() && wi%2 == 1 && wi > 44 {
+				continue
+			}
+			for _, base := range []*secp256k1.Point{R1, R2} {
+				p := rep(base, w) // Z = w
+				q := clonePt(G)
+				emitBin(ops[0], "none", junk(), clonePt(p), q)
+				emitBin(ops[0], "none", junk(), clonePt(q), clonePt(p))
+				emitBin(ops[1], "none", junk(), clonePt(p), clonePt(q))
+				pp := clonePt(p)
+				ph := ptRaw(pp)
+				v := junk().Double(pp)
+				c.E("pt.Dbl", "alias", "none", "p", ph, "out", ptRaw(v), "enc", encOrPanic(v))
+				x, y, _, _ := secp256k1.NewIdentityPoint().VerifRescale(R2).VerifCoords()
+				v = junk()
+				v.VerifAddMixed(pp, x, y)
+				c.E("pt.AddMixed", "alias", "none", "p", ph, "x2", hx(x.Bytes()), "y2", hx(y.Bytes()), "out", ptRaw(v), "enc", encOrPanic(v))
+				if wi%4 != 0 {
+					break
+				}
+			}
+			// two affine points whose abscissas (resp. ordinates) sum to w
+			for try := 0; try < 64; try++ {
+				x1 := randBig(r, bigP)
+				x2 := new(big.Int).Mod(new(big.Int).Sub(w, x1), bigP)
+				y1, y2 := sqrtP(yyOf(x1)), sqrtP(yyOf(x2))
+				if y1 == nil || y2 == nil || x1.Sign() == 0 || x2.Sign() == 0 {
+					continue
+				}
+				P, e1 := secp256k1.NewPointFromCoords(be32(x1), be32(y1))
+				Q, e2 := secp256k1.NewPointFromCoords(be32(x2), be32(y2))
+				if e1 != nil || e2 != nil {
+					break
+				}
+				emitBin(ops[0], "none", junk(), clonePt(P), clonePt(Q))
+				emitBin(ops[1], "none", junk(), clonePt(P), secp256k1.NewIdentityPoint().Negate(Q))
+				break
+			}
+		}
+	}
 	// mixed addition: projective p + affine q (q != identity)
 	for _, a := range pool {
 		for _, bq := range abstract[1:] {
